@@ -358,6 +358,13 @@ impl BinArchive {
             + (raw_labels.len() * 4)
             + raw_text.len()
             + 0x20;
+        // Every size, count, address and offset of the file is stored in 32 bits.
+        if file_size > u32::MAX as usize {
+            return Err(ArchiveError::OtherError(format!(
+                "An archive of {} bytes cannot be stored: the format uses 32-bit sizes.",
+                file_size
+            )));
+        }
         bytes.resize(file_size, 0);
         let mut cursor: Cursor<&mut [u8]> = Cursor::new(&mut bytes);
         cursor.write_u32(file_size as u32, self.endian)?;
